@@ -24,7 +24,18 @@ MODULES = ['CirqVerif.Props.C09', 'CirqVerif.Props.C09b', 'CirqVerif.Props.C09c'
 
 def rand_channel(cirq, rng):
     p = lambda: rng.choice([0.0, 1.0, 0.5, 0.1, round(rng.random(), 3)])
-    k = rng.randrange(12)
+    k = rng.randrange(15)
+    if k == 12:
+        # independent copies of a mixture side by side: every combination of branches occurs
+        return cirq.ParallelGate(rng.choice([cirq.bit_flip(p()), cirq.phase_flip(p()), cirq.depolarize(0.3), cirq.X.with_probability(p())]), 2), 2
+    if k == 13:
+        # a (mixture of) gate(s) under controls with other control values than all-ones
+        sub = rng.choice([cirq.bit_flip(p()), cirq.X, cirq.depolarize(0.2), cirq.Y ** 0.5, cirq.X.with_probability(0.4)])
+        return cirq.ControlledGate(sub, control_values=[0]), 2
+    if k == 14:
+        sub = rng.choice([cirq.bit_flip(p()), cirq.Z ** 0.5, cirq.phase_flip(0.3)])
+        cv = rng.choice([[0, 1], [1, 0], [0, 0], cirq.SumOfProducts([(0, 1), (1, 0)])])
+        return cirq.ControlledGate(sub, num_controls=2, control_values=cv), 3
     if k == 0:
         return cirq.bit_flip(p()), 1
     if k == 1:
